@@ -21,7 +21,7 @@ use crate::rules::require::{is_require_call, match_path_require_call, PathLocato
 use crate::rules::{
     Context, ContextBuilder, FlawlessRule, ReplaceReferencedTokens, RuleProcessResult,
 };
-use crate::utils::Timer;
+use crate::utils::{normalize_path, Timer};
 use crate::{DarkluaError, Resources};
 
 use super::BundleOptions;
@@ -110,7 +110,9 @@ impl<'a, 'b, 'resources, PathLocatorImpl: PathLocator>
             .path_locator
             .find_require_path(&literal_require_path, &self.source)
         {
-            Ok(path) => path,
+            // the same file can be located as `lib.lua` or `./lib.lua`: modules are identified
+            // by their normalized path
+            Ok(path) => normalize_path(path),
             Err(err) => {
                 self.errors.push(err.to_string());
                 return None;
